@@ -144,11 +144,12 @@ def run(prop, tier, seed, mc, gen, level_rule, nontrivial=None, extra=None, cuts
                 raise Inconclusive("generation produced no histories for " + name)
             tlc_runs.append({"config": "gen-" + name, "mode": mode, "distinct": r.get("distinct"),
                              "generated": r.get("generated"), "wall_s": round(r["wall_s"], 1)})
-            sm = replay_file(s, out, name, cuts=cuts)
+            sm = replay_file(s, out, name, cuts=(cuts.get(name) if isinstance(cuts, dict) else cuts))
             sm["config"] = name
             sums.append(sm)
+        ex = None
         if extra:
-            extra(s, verdict, sums)
+            ex = extra(s, verdict, sums)
         total = merge(sums)
         # keep counterexamples
         own = [m for m in total["mismatches"] if m["mismatch"]["prop"] in (prop, "*")]
@@ -178,6 +179,15 @@ def run(prop, tier, seed, mc, gen, level_rule, nontrivial=None, extra=None, cuts
         "exhaustive": all(m == "bfs" for _, _, m in gen),
         "checker_cmd": "tlc MC_Session.tla (spec/Session.tla) + harness/cmd/sessionreplay",
     }
+    if isinstance(ex, dict):
+        cov["states"] += ex.get("states", 0)
+        cov["transitions"] += ex.get("transitions", 0)
+        cov["traces_validated_against_impl"] += ex.get("validated", 0)
+        cov["evaluations"] += ex.get("evaluations", 0)
+        nviol += ex.get("violations", 0)
+        cov.update(ex.get("cov", {}))
+        if ex.get("checker_cmd"):
+            cov["checker_cmd"] += "; " + ex["checker_cmd"]
     vlib.write_evidence(prop, tier, seed, "model_checking", cov, [
         "the backend is the scripted puppet (harness/puppet): the file-system semantics are the world model of Session.tla",
         "sequential histories on in-memory transports; bounded by the constants listed in tlc_runs",
